@@ -622,7 +622,18 @@ func ruleScopeRestore(p *Program, r *Reporter) {
 	for _, body := range deferredBodies(a.execute, runCall) {
 		for _, c := range callsTo(body, er.truncate) {
 			if n, ok := constInt(c.Common().Args[1]); ok && n == 0 {
-				zero = true
+				// unconditional: executed on every path through the deferred function
+				all := true
+				for _, bb := range body.Blocks {
+					if _, isRet := terminator(bb).(*ssa.Return); isRet {
+						if !(c.Block() == bb || c.Block().Dominates(bb)) {
+							all = false
+						}
+					}
+				}
+				if all {
+					zero = true
+				}
 			}
 		}
 	}
